@@ -209,6 +209,35 @@ def run(ctx):
     ctx.extra["key_file_mutation_classes"] = len(set(t["mut"] for t in keys))
 
     # ---------------------------------------------------------------------------------------------------------
+    # OpenSSL-encrypted PEM blocks for every documented cipher name (the library writes only DES-EDE3-CBC): opened by the specification itself
+    lt = ctx.drive("c13_pemlegacy", [], inp={"tid0": 700000})["traces"]
+    lv = ctx.validate("PemLegacyTrace", lt, shards=8, family="pem-legacy-encryption", timeout=1800)
+    lgood = None
+    algs = {}
+    for t in lt:
+        ctx.count()
+        ctx.nontriv(["pemlegacy", t["algo"], t["pw"], t["iv"], t["ct"]])
+        algs[t["algo"]] = algs.get(t["algo"], 0) + 1
+        clause = lv[t["tid"]][1]
+        if clause == "ok":
+            if lgood is None and len(t["data"]) > 8 and t["algo"].startswith("AES"):
+                lgood = t
+            continue
+        if clause.startswith("harness:"):
+            raise Machinery("harness inconsistency in legacy PEM trace %d (%s): %s" % (t["tid"], t["algo"], clause))
+        ctx.violation("PEM.decode: %s" % clause, {"cipher": t["algo"], "passphrase_hex": bytes(t["pw"]).hex(), "pem": t["text"], "data_hex": bytes(t["data"]).hex()[:200],
+                                                  "decode": t["out"], "without_passphrase": t["nopass"], "import_key": t["imp"]}, replay=t)
+    ctx.extra["openssl_encrypted_pem_blocks"] = algs
+    if lgood is None:
+        if not ctx.violations:
+            raise Machinery("no accepted legacy PEM trace for the binding self-check")
+    else:
+        def flip_got(t):
+            t["got"][0] ^= 1
+            return t
+        ctx.binding_selfcheck("PemLegacyTrace", lgood, flip_got, "pem-legacy: one bit of the decoded data")
+
+    # ---------------------------------------------------------------------------------------------------------
     # samples
     def first(ts, vs, pred):
         return next((t for t in ts if vs[t["tid"]][1] == "ok" and pred(t)), None)
